@@ -279,7 +279,7 @@ impl Property for P {
         "C13"
     }
     fn rule(&self) -> String {
-        "redirect chains of 1..4 hops: original request (9 methods, 1.0/1.1) carries tagged Authorization, one or two Cookie fields and (body methods) Content-Length; Locations are drawn from absolute (original host same/other scheme, other hosts, ports incl. explicit default), scheme-relative, path-absolute, relative with ./ ../, query-only, empty, with fragment; all redirect statuses; both policies; the caller also attaches fresh cookies on later hops. Every request created by a redirect is serialised and parsed by the strict parser: a Cookie or Content-Length value tagged as the original's must never appear; the original Authorization may appear only if policy = SameHost and target host == original host and (target scheme == original scheme or https), the target being computed by an independent RFC 3986 resolver. A third of the originals spell out their Host; redirected flows get send_body_despite_method() now and then (whatever framing they then carry must be their own). class = hop index x host relation x scheme relation x policy. How often the credential was forwarded where allowed is reported as a statistic, not judged.".into()
+        "redirect chains of 1..4 hops: original request (9 methods, 1.0/1.1) carries tagged Authorization, one or two Cookie fields and (body methods) Content-Length; Locations are drawn from absolute (original host same/other scheme, other hosts, ports incl. explicit default), scheme-relative, path-absolute, relative with ./ ../, query-only, empty, with fragment; all redirect statuses; both policies; the caller also attaches fresh cookies on later hops. Every request created by a redirect is serialised and parsed by the strict parser: a Cookie or Content-Length value tagged as the original's must never appear; the original Authorization may appear only if policy = SameHost and target host == original host and (target scheme == original scheme or https), the target being computed by an independent RFC 3986 resolver. A third of the originals spell out their Host; redirected flows get send_body_despite_method() now and then (whatever framing they then carry must be their own). class = hop index x host relation x scheme relation x policy. How often the credential was forwarded where allowed is reported as a statistic, not judged. A third of the chains choose the policy afresh at every hop (each head judged by the policy that created it); one original in sixteen carries seventy other fields in front of its credentials; non-absolute-originals: authority-form, origin-form and asterisk originals (no scheme of their own).".into()
     }
     fn assumptions(&self) -> Vec<String> {
         vec![
